@@ -38,7 +38,7 @@ def program_output(res):
     """Standard output of the program proper.  The interpreter lists its call stack on stdout when a program
     halts: a diagnostic, not program output."""
     out = res["out"]
-    if res["phase"] == "interp" and res["rc"] != 0:
+    if res["phase"] == "interp":        # (also after a halt that the program caught and survived)
         out = re.sub(r"^(#\d+ \S+ in <[^>]*> at unit \[[^\]]*\]|\.\.\.)\n", "", out, flags=re.M)
     # a failed assertion names its unit, line and source text: the specification writes "@@" for them
     # (the generator keeps assertion conditions to one-line expressions: conditionals are pretty-printed over several lines)
